@@ -21,7 +21,7 @@ import coqlit as L
 ID = "C19"
 COQ_PROPERTY_FILE = "Properties/C19.v"
 COQ_DEPS = ["Common/ListX.v", "Common/ObsHash.v", "Generated/Tables.v", "Model/Copy.v", "Proofs/CopyProofs.v",
-            "Proofs/CopyInvProofs.v"]
+            "Proofs/CopyInvProofs.v", "Proofs/CopyFreshProofs.v"]
 COQ_IMPORTS = "From Mesa Require Import Model.Copy."
 COQ_CASE_TYPE = "case"
 COQ_RUN = "run_case"
@@ -1104,11 +1104,16 @@ LEVEL_TEXT = ("Machine-checked Coq theorems over a heap model (cells, agents, pr
               "tables) of Mesa's copy mechanism: copy_space follows Cell.__getstate__, the copyreg hook and "
               "Grid/DiscreteSpace.__setstate__.  Proved for every well-formed source state: the copy has the same abstract "
               "state (C19_faithful), every cell attribute of the copy reads and writes the copy's own layer (C19_attrs_wired), "
-              "every location of the copy is fresh (C19_detached); and for every history of operations on any number of sides "
-              "the separation/wiring invariant holds (C19_invariant) and an operation on one side leaves the abstract state of "
-              "every other side unchanged (C19_independent).  The model is tied to the code by differential evaluation on "
-              "random and exhaustive small histories (T2); an independent oracle (twin freshly built space, identity checks) "
-              "states the property on the implementation and supplies the failing input.")
+              "every location of the copy is fresh (C19_fresh, C19_detached), no existing side changes (C19_source_untouched); "
+              "for every history of operations on any number of sides incl. copies of copies the separation/wiring "
+              "invariants hold (C19_invariant, C19_invariant2, C19_detached_always, C19_wired_always, "
+              "C19_attrs_wired_always) and a history not addressed to a side leaves its abstract state and observation "
+              "unchanged (C19_independent, C19_independent_obs); every history of a side refines an abstract machine over "
+              "the abstract state (C19_refinement), so two sides in the same abstract state - a copy and a freshly built "
+              "space - show the same for ever (C19_behaves_fresh, C19_copy_behaves_like_source); AgentSet copies keep "
+              "members and order, are new objects and independent (C19_agentset_*).  The model is tied to the code by "
+              "differential evaluation on random and exhaustive small histories (T2); an independent oracle (freshly "
+              "built twin space, identity checks) states the property on the implementation and supplies the failing input.")
 LEVEL_NOTE = ("Theorems are about the model. Trusted: Coq kernel, the driver/observer, CPython attribute lookup, copy/pickle memo "
               "semantics as modelled. Geometry (which connections a fresh space has) is an input table (property C07). No axioms.")
 TECHNIQUE = "Coq proof (heap invariants by induction over op lists, closed under global context) + vm_compute correspondence + twin oracle"
